@@ -573,6 +573,12 @@ func (m *Manager) rotateWAL() error {
 	}
 
 	verifhook.At("storage.rotate.after_newwal")
+	// Continue the sequence numbers of the old WAL in the new file so that
+	// writes after a rotation are ordered after all earlier writes
+	if currentWAL != nil {
+		newWAL.UpdateNextSequence(currentWAL.GetNextSequence())
+	}
+
 	// Store the old WAL for proper closure
 	oldWAL := m.wal
 
